@@ -29,4 +29,10 @@ def jobs(tier):
                  "bus_client_policy_optimize"], stubs=["uid/gid hash tables = 1-entry symbolic maps", "unix groups / uid / at_console = symbolic"],
                  bounds="one rule per context (default, one group list, one user list, console true/false, mandatory), NG groups per connection (0..2), uid/gid 32-bit symbolic",
                  shape=f"context order, {ng} groups"))
+    J.append(Job(name="f.gate", group="C06.f", harness="harness/C06_gate.c", real=["dbus/dbus-string.c"], env=["assert_stubs.c", "mem.c", "msg_model.c"],
+                 checks="assert", unwind=8, unwindset=["strcmp.0:50", "vf_streq.0:50", "strlen.0:50"], timeout=600,
+                 encodes=["bus_context_check_security_policy", "complain_about_message"], remove_bodies=["bus_context_log_literal"],
+                 stubs=["send / receive rule evaluators, SELinux / AppArmor hooks, pending-reply table, queue sizes = symbolic answers with ghost log"],
+                 bounds="one message (symbolic header record, type 1..5) with sender / addressed recipient / proposed recipient each present or not, every callee answer symbolic, limits full width",
+                 shape="policy gate"))
     return J
